@@ -10,7 +10,12 @@ from montepy.errors import *
 from montepy.numbered_mcnp_object import Numbered_MCNP_Object
 from montepy.data_inputs.material import Material
 from montepy.geometry_operators import Operator
-from montepy.surfaces.half_space import HalfSpace, UnitHalfSpace
+from montepy.surfaces.half_space import (
+    HalfSpace,
+    UnitHalfSpace,
+    _encloses,
+    _end_comments_in_parentheses,
+)
 from montepy.surfaces.surface import Surface
 from montepy.surface_collection import Surfaces
 from montepy.universe import Universe
@@ -579,7 +584,12 @@ class Cell(Numbered_MCNP_Object):
             mat_num = 0
         self._tree["material"]["mat_number"].value = mat_num
         self._geometry._update_values()
-        self._tree.nodes["geometry"] = self.geometry.node
+        # parentheses around the whole geometry (with their padding and comments) stay
+        # as long as they still enclose the syntax node of this geometry
+        if _encloses(self._tree["geometry"], self.geometry.node):
+            _end_comments_in_parentheses(self._tree["geometry"], self.geometry.node)
+        else:
+            self._tree.nodes["geometry"] = self.geometry.node
         for input_class, (attr, _) in self._INPUTS_TO_PROPERTY.items():
             getattr(self, attr)._update_values()
 
